@@ -51,11 +51,26 @@ CHECKS.append(_check("C09", "gibbs", "exploration",
            "deterministic simulation: orchestrator with real/fake peers, reference model of current block values, tape rewind + stand-alone replay oracle",
            "DESIGN.md 3.4"))
 
+CHECKS.append(_check("C05", "streams", "exploration",
+           "RANDOM-STREAM, WRAPPING AND REFUSAL CLAUSES ONLY. Two simulated clients share the process: A draws with its own "
+           "generator (Distribution.sample(N, rng=g) over 21 family/parameterisation recipes; legacy ULA/MALA/UGLA(rng=g)), B "
+           "consumes the global stream (sampling without rng, experimental MH steps). The scheduler interleaves them; each "
+           "client's outputs must equal its solo run from the same initial stream state, an A-op must leave the global state and "
+           "a B-op the generator untouched (state digests), repeating an A-op from a restored generator state repeats the output, "
+           "N=1 gives a geometry-carrying array and N>1 a one-column-per-draw collection, and conditional distributions refuse to "
+           "sample without consuming randomness. The distributional clause (draws follow the object's own density) is NOT decided: "
+           "a law cannot be observed in one replayable run.",
+           "Trusted: numpy RandomState state capture. The first sentence of C05 is outside this technique (DESIGN.md 3.6).",
+           "deterministic simulation: interleaving of two random-stream clients, solo-run equivalence and stream-state digests",
+           "DESIGN.md 3.6"))
+
 ENGINES = [
     {"name": "chain", "path": "engines/chain.py", "serves_properties": ["C14"],
      "kind_free_text": "seeded simulator of sampler runs: owns the random tape, the file system, the callback and the target callables; injects splits, checkpoints, crashes, restarts, I/O errors"},
     {"name": "gibbs", "path": "engines/gibbs.py", "serves_properties": ["C09"],
      "kind_free_text": "Gibbs orchestrators with real and scripted block samplers; reference model of current block values; tape rewind and stand-alone replay"},
+    {"name": "streams", "path": "engines/streams.py", "serves_properties": ["C05"],
+     "kind_free_text": "two random-stream clients (own generator vs global stream) interleaved by the scheduler; solo-run equivalence"},
     {"name": "mhkernel", "path": "engines/mhkernel.py", "serves_properties": ["C02"],
      "kind_free_text": "adversarial scheduler of the accept-site uniform with a reference MH model per proposal family; NaN/-inf fault injection at proposals"},
 ]
